@@ -13,7 +13,7 @@ chk("C01", "exploration",
     "runtime monitoring: differential oracle over produced bytes and reader event sequences (reference codec)", "DESIGN.md §6 C01")
 
 chk("C02", "exploration",
-    "Runtime monitor over mutated archives: EVERY proper prefix and every byte (one bit quick / all 8 bits thorough) of seeded small valid CARv1/CARv2 archives, plus random mutations, through 17 scanning readers (v2 BlockReader on seekable/plain/1-byte/bufio/data+EOF sources with and without ZeroLengthSectionAsEOF, carv1 reader, root CarReader/LoadCar, Inspect(true)); archives with one large section are sampled at offsets; oracles: every returned block re-hashed with stdlib hashes, reference section table decides whether a cut/flip must be reported, returned blocks must be a prefix of the original sequence. Enumeration is total per archive, archives are sampled.",
+    "Runtime monitor over mutated archives: EVERY proper prefix and every byte (one bit quick / all 8 bits thorough) of seeded small valid CARv1/CARv2 archives, plus random mutations, through 20 scanning readers (v2 BlockReader on seekable/plain/1-byte/bufio/data+EOF/stutter/seekable-data+EOF sources with and without ZeroLengthSectionAsEOF, carv1 reader, root CarReader/LoadCar, Inspect(true)); archives with one large section are sampled at offsets; oracles: every returned block re-hashed with stdlib hashes, reference section table decides whether a cut/flip must be reported, returned blocks must be a prefix of the original sequence. Enumeration is total per archive, archives are sampled.",
     "trusts refcar's section table and stdlib/x-crypto hashes; cuts on section boundaries and past a CARv2 payload are exempt as the property states; zero-length (fully truncated) digests verify vacuously as multihash defines",
     "runtime monitoring: exhaustive truncation/bit-flip fault injection per archive with hash and clean-end oracles", "DESIGN.md §6 C02")
 
@@ -67,7 +67,7 @@ chk("C12", "exploration",
     "byte equality only; permuted roots and changed multiplicity of duplicated roots are not counted as mismatches",
     "runtime monitoring: exhaustive interruption-string enumeration with byte-equality oracle", "DESIGN.md §6 C12")
 chk("C20", "exploration",
-    "Runtime monitor against an executable model: ALL op strings of length ≤ 4 (quick) / ≤ 6 (thorough) over {OnPut(once), OnPut(always), Has x2, Put x3, Close} x 6 targets (path v1/v2/v2+options, stream, stream+options, stream that is also an io.WriterAt in CARv2 mode; path targets also over a pre-existing file) plus random longer strings; after every step: nothing written / no file before the first Put, output bytes equal to a directly constructed writer fed the same puts, callback log equal to the model's, closed-error after Close.",
+    "Runtime monitor against an executable model: ALL op strings of length ≤ 4 (quick) / ≤ 6 (thorough) over {OnPut(once), OnPut(always), Has x2, Put x3, Close} x 7 targets (path v1/v2/v2+options, stream, stream+options, stream that is also an io.WriterAt in CARv2 mode, stream that breaks mid-session; path targets also over a pre-existing file) plus random longer strings; after every step: nothing written / no file before the first Put, output bytes equal to a directly constructed writer fed the same puts, callback log equal to the model's, closed-error after Close.",
     "the direct writer is the oracle for bytes (itself judged by C01/C05)",
     "runtime monitoring: step-by-step comparison with an executable model and a twin direct writer over exhaustively enumerated op strings", "DESIGN.md §6 C20")
 
